@@ -43,7 +43,23 @@ func relatedQueries(r *simrt.Rand, si *schemaInfo, n int) []*Query {
 	var out []*Query
 	for len(out) < n {
 		var e *Expr
-		switch r.Intn(12) {
+		switch r.Intn(14) {
+		case 12, 13:
+			// the same leaves regrouped under the same pair of operators:
+			// (a|b)&(c|d), (a|c)&(b|d), (a|d)&(b|c) — three meanings, one multiset of leaves
+			a, b, c, d := leaf(), leaf(), leaf(), leaf()
+			in, outer := "or", "and"
+			if r.Chance(1, 2) {
+				in, outer = "and", "or"
+			}
+			mk := func(w, x, y, z *Expr) *Expr {
+				return &Expr{Op: outer, Kids: []*Expr{{Op: in, Kids: []*Expr{w.Clone(), x.Clone()}}, {Op: in, Kids: []*Expr{y.Clone(), z.Clone()}}}}
+			}
+			for _, g := range []*Expr{mk(a, b, c, d), mk(a, c, b, d), mk(a, d, b, c)} {
+				pool = append(pool, g)
+				out = append(out, &Query{Expr: g})
+			}
+			continue
 		case 0:
 			e = And(leaf(), leaf())
 		case 1:
@@ -118,6 +134,9 @@ func genC03(c *Ctx) any {
 	}
 	cs.Open = genOpenCfg(c.Rand("open"), true)
 	cs.Open.ViaDB = false
+	if r.Chance(1, 4) {
+		cs.Open.Audit = true
+	}
 	si := infoOf(cs.Data.Spec.Expand())
 	cs.Queries = relatedQueries(r, si, r.Range(5, 60))
 	return cs
@@ -184,6 +203,10 @@ func runC03(c *Ctx, body json.RawMessage) *Verdict {
 			idx.Close()
 			return bad
 		}
+		if probe.audit != nil && probe.audit.conflict != "" {
+			idx.Close()
+			return v.Violate("cache-key-collision", "while evaluating history query %d (%s): %s — two expressions of different meaning share a cache key", i, q, probe.audit.conflict)
+		}
 		if b, e := ref.Eval(q.Expr); e == nil {
 			meanings[fmt.Sprint(b)] = true
 		}
@@ -221,7 +244,11 @@ func runC03(c *Ctx, body json.RawMessage) *Verdict {
 	if probe.lossy != nil {
 		v.Count("fault_lossy_cache_forgets", probe.lossy.forgot)
 	}
-	v.NonTrivial = hits > 0 && len(meanings) >= 2
+	if probe.audit != nil {
+		v.Count("audit_puts", probe.audit.puts)
+		v.Count("audit_distinct_keys", int64(len(probe.audit.seen)))
+	}
+	v.NonTrivial = (hits > 0 || (probe.audit != nil && probe.audit.puts > int64(len(probe.audit.seen)))) && len(meanings) >= 2
 	v.StateKey = simrt.Hash3(simrt.HashStr(cs.Open.Class()), uint64(len(cs.Queries)), uint64(len(meanings)))
 	return v
 }
